@@ -328,6 +328,67 @@ def judgeBatch (lhs rhs : Tok) : String :=
     | [] => s!"DIFF {cls} empty-result"
   | _ => "DIFF bad-line unparsable-batch"
 
+/-! history lines: `hist <fam> <reps> x.. x.. => hist || m i <status> A=<max> F=<first> K=<call> n=<calls> same|changed:<st> [| geom]`
+(state carried across calls: ~10 000 calls in one process on one line, the allocation clause judged
+for EVERY call — `A` is the largest allocation any call on that member made) -/
+
+def famOf (fam : String) : Family := if fam = "hex" then .hex else if fam = "json" then .json else .wkb
+
+def judgeHistMember (fam : String) (inp : String) (seg : Tok) : Option (String × String) :=
+  match hexToBytes (inp.drop 1).toString with
+  | none => some ("DIFF", "unparsable-input")
+  | some bs =>
+    match splitBar seg with
+    | ("m" :: _ :: st :: meas) :: rest =>
+      let calls := natAfter "n=" meas
+      if calls = 0 then none else        -- the history was stopped before this member's first call
+      let a := natAfter "A=" meas
+      let changed := (meas.find? (·.startsWith "changed:")).map fun s => (s.drop 8).toString
+      let bad (s : String) : Bool := !(s = "ok" || s.startsWith "err:")
+      if bad st then some ("SPEC", s!"not-total:{st} size={bs.length}")
+      else if (match changed with | some c => bad c | none => false) then
+        some ("SPEC", s!"not-total:{changed.getD ""} in-a-later-call-of-the-history size={bs.length}")
+      else if !allocOK (famOf fam) bs.length a then
+        some ("SPEC", s!"allocation {a} exceeds bound {allocBound (famOf fam) bs.length} for input size {bs.length} in call {natAfter "K=" meas} of the history (first call on this input: {natAfter "F=" meas})")
+      else
+        let p := predOf fam bs
+        if changed.isSome then some ("DIFF", s!"result-changed-across-calls first={st} later={changed.getD ""}")
+        else if st.startsWith "err:" then
+          if p.cls == (st.drop 4).toString then none else some ("DIFF", s!"model={p.cls} impl={st}")
+        else match rest with
+          | gt :: _ =>
+            match Proto.pGeom 100000 gt with
+            | some (g, _) =>
+              let wf := if fam = "json" then wellFormedJson g else wellFormed g
+              if !wf then some ("SPEC", "result-not-well-formed")
+              else match p.geom with
+                | some mg => if Geom.beq g mg then none else some ("DIFF", "decoded-geometry-differs-from-model")
+                | none => some ("DIFF", s!"model={p.cls} impl=ok")
+            | none => some ("DIFF", "unparsable-geometry")
+          | [] => some ("DIFF", "unparsable-member")
+    | _ => some ("DIFF", "unparsable-member")
+
+def judgeHist (lhs rhs : Tok) : String :=
+  match lhs with
+  | _ :: fam :: _ :: inputs =>
+    let cls := "hist-" ++ fam
+    match rhs with
+    | "hist" :: rest =>
+      let segs := (splitOn2 rest "||").drop 1
+      if segs.length != inputs.length then s!"SPEC {cls} not-total:members-missing {segs.length}/{inputs.length}"
+      else
+        let vs := (inputs.zip segs).filterMap fun (i, s) => judgeHistMember fam i s
+        match vs.find? (·.1 == "SPEC") with
+        | some (_, why) => s!"SPEC {cls} {why}"
+        | none => match vs with
+          | (k, why) :: _ => s!"{k} {cls} {why}"
+          | [] => s!"OK {cls}"
+    | t0 :: _ =>
+      if t0 = "oom" ∨ t0 = "timeout" ∨ t0.startsWith "crash" then s!"SPEC {cls} not-total:{t0} somewhere-in-the-history"
+      else s!"DIFF {cls} unparsable-result"
+    | [] => s!"DIFF {cls} empty-result"
+  | _ => "DIFF bad-line unparsable-hist"
+
 def statusName : Status → String
   | .ok => "ok" | .err => "err" | .both => "geometry-and-error" | .neither => "nil-nil" | .panic => "panic"
   | .oom => "out-of-memory" | .crash => "crash" | .timeout => "timeout"
@@ -337,6 +398,11 @@ def judgeLine (line : String) : String :=
   -- not run: the supervisor stops after 25 worker deaths (each of them a SPEC verdict above this line)
   if rhs == ["skipped"] then "OK skipped" else
   if lhs.head? == some "batch" then judgeBatch lhs rhs else
+  if lhs.head? == some "hist" then judgeHist lhs rhs else
+  -- the supervisor ran a failing line again, ALONE in a fresh process, and there it did not fail: the
+  -- failure belongs to the history, not to this input (the self-contained failing inputs are the `hist` lines)
+  if (rhs.headD "").startsWith "statedep:" then
+    s!"DIFF {lhs.headD "?"}-statedep result-depends-on-earlier-calls after-history={((rhs.headD "").drop 9).toString} alone={(rhs.drop 1).headD ""}" else
   match parseCase lhs, parseObs rhs with
   | none, _ => "DIFF bad-line unparsable-input"
   | some c, none => s!"DIFF {c.kind}-bad-result unparsable-result {" ".intercalate (rhs.take 3)}"
